@@ -150,6 +150,25 @@ check("C17", "exploration",
       "DESIGN.md section 3 C17")
 
 
+check("C19", "exploration",
+      "Cls() and Cls(**subset) for keyword subsets of size 0, 1, 2 and all over generated declarations with user defaults on ~45% of the "
+      "fields (Int/Bits/Data/list/optional defaults, prototype instances with their own defaults, described fields): visible values must "
+      "equal the model's default table overridden by exactly the keywords, pack() must be the reference encoding; freshness of lists and "
+      "nested packets is checked by object identity and by mutating one packet and re-reading others.",
+      "Trusts model.defaults / model.encode as the statement's default table and encoding. F2 (regex delimiter not kept) exhibited by a probe, reported as KNOWN-FINDING.",
+      "runtime monitoring: reference-model oracle on constructed packets + object-identity aliasing scan",
+      "DESIGN.md section 3 C19")
+
+check("C20", "exploration",
+      "Pairs of real packets (parsed twice, built twice, parsed vs built, described fields left automatic vs explicit, before/after "
+      "pack(), one leaf changed at any depth, same declaration in two classes, non-packets) over declarations emphasising "
+      "at/shift/aligned, class align, Em and described fields: == must equal isinstance and model-tree equality, != its negation, "
+      "neither may raise, repr returns a str.",
+      "Trusts model value trees read through public attributes as 'the value-bearing fields'.",
+      "runtime monitoring: structural-equality oracle over generated packet pairs, totality monitor for ==, != and repr",
+      "DESIGN.md section 3 C20")
+
+
 def build():
     import glob
     props = []
